@@ -1,6 +1,6 @@
 import Indi.Properties.C02
 import Indi.Properties.Wire
-import Indi.Properties.Decisions
+import Indi.Properties.Dec.Buffer
 import Indi.Properties.Spellings
 import Indi.Properties.C02b
 #print axioms Indi.Buf.C02_abstract
@@ -26,3 +26,4 @@ import Indi.Properties.C02b
 #print axioms Indi.Conn.recv_fragmentation_independent_wf
 #print axioms Indi.Conn.recv_fragmentation_independent_ne
 #print axioms Indi.Conn.recv_fragmentation_independent_state_counterexample
+#print axioms Indi.Decisions.bufSkip_agrees
